@@ -98,6 +98,8 @@ const HOSTILE_CHARS: &[&str] = &[
     "a", "b", " ", "\t", "\n", "\r", "<", "&", ">", "'", "\"", "]", "-", "?", "é", "€", "𝄞",
     "\u{85}", "\u{a0}", "\u{2003}", "\u{2028}", "\u{d7ff}", "\u{e000}", "\u{fffd}", "\u{feff}", "]]>", "]]]>",
     "]]", "--", "?>", "&amp;", "&#13;", "&lt;", "<!--", "<![CDATA[", "=", "/", "x", "1", "  ", " encoding=\"ISO-8859-1\"", "charset=koi8-r ",
+    // characters a Unicode normalizer turns into '<' / '&' / two letters
+    "\u{226e}", "\u{ff06}", "\u{fb01}",
 ];
 
 pub fn hostile_string(rng: &mut Rng, min: usize, max: usize, allow_cr: bool) -> String {
